@@ -29,9 +29,10 @@ Proof.
   assert (B : forall q cs, dec_body dec TOid q cs = Err).
   { intros q cs. unfold dec_body. pose proof (parse_tl_spec cs) as Hq.
     destruct (parse_tl cs) as [[a b]| | |]; cbn [tl_post] in Hq; try contradiction; cbn [bind]; [|reflexivity].
-    destruct (b + t_len a >? zlen cs); reflexivity. }
+    destruct (b + t_len a >? zlen cs); [reflexivity|]. destruct (negb (ident_ok TOid q a)); reflexivity. }
   destruct (_ && _ && _).
-  - destruct (slice_from_spec bs toff) as [c [Hc _]]; [lia|]. rewrite Hc. cbn [bind]. apply B.
+  - destruct (negb (wrapper_ok p tl0)); [reflexivity|].
+    destruct (slice_from_spec bs toff) as [c [Hc _]]; [lia|]. rewrite Hc. cbn [bind]. apply B.
   - apply B.
 Qed.
 
